@@ -22,8 +22,8 @@ func globMatch(pattern, id string) bool {
 	return regexp.MustCompile("^" + strings.Join(parts, ".*") + "$").MatchString(id)
 }
 
-var searchIds = []string{"a", "ab", "abc", "a/b", "b.a", "b", "ba", "c", "x/a", "foo", "foo.1", "foo.2", "bar", "b/a/r", "z"}
-var searchPatterns = []string{"*", "*", "*", "a*", "*a", "*b*", "foo*", "*.1", "a", "b*a", "*/a*", "nomatch*"}
+var searchIds = []string{"a", "ab", "abc", "a/b", "b.a", "b", "ba", "c", "x/a", "foo", "foo.1", "foo.2", "bar", "b/a/r", "z", "u_v", "u_v", "u_w"} // (no other id starts with u: "_" may be a literal or a one-character wildcard, the matches are the same)
+var searchPatterns = []string{"*", "*", "*", "a*", "*a", "*b*", "foo*", "*.1", "a", "b*a", "*/a*", "nomatch*", "u_*", "u_v*", "u_*"}
 
 type page struct {
 	req    *ReqRec
